@@ -121,3 +121,46 @@ def k_units(prop, tier):
         add("c18_det_f64_2x2", 600, fn, ["init_det vs init_with_seed(42), f64 2x2"], st, thorough_only=True)
         add("c18_unseeded_f32_3x1", 600, fn, ["init (OS entropy symbolic), f32 3x1"], st, thorough_only=True)
     return U
+
+
+# ------------------------------------------------------------------------------------------------
+# Engine M
+# ------------------------------------------------------------------------------------------------
+def m_checks(out, prop, tier, seed, only=None):
+    """Run the MIR-engine units of a property.  Returns True if any unit is registered."""
+    import traceback
+    import mirsym
+    table = m_table()
+    units = table.get(prop, [])
+    ran = False
+    for name, fn in units:
+        if only and name not in only.split(","):
+            continue
+        ran = True
+        from common import log
+        import time
+        t0 = time.time()
+        try:
+            fn(out, tier, seed)
+        except mirsym.Unmodelled as e:
+            out.inconclusive.append("%s: unmodelled construct -- %s" % (name, e))
+        except Exception as e:  # fail closed
+            out.inconclusive.append("%s: engine error %r\n%s" % (name, e, traceback.format_exc()[-1500:]))
+        log("  [M] %s done in %.0fs" % (name, time.time() - t0))
+    if ran:
+        out.add_assumptions([
+            "MIR engine: rustc nightly's MIR of the current /repo sources (regenerated per source hash) is executed "
+            "symbolically by /verif/lib/mirsym.py; library callees follow the model table (each used model is listed); "
+            "z3 decides every obligation under the path condition; `unknown` is never success",
+        ])
+    return ran
+
+
+def m_table():
+    import m_stats
+    import m_dist
+    return {
+        "C15": [("c15_isotropic", m_dist.c15_isotropic), ("c15_gaussian2d", m_dist.c15_gaussian2d)],
+        "C11": [("c11_split_rhat", m_stats.c11_split_rhat)],
+        "C13": [("c13_trackers", m_stats.c13_trackers)],
+    }
